@@ -247,6 +247,7 @@ fn cmd_replay(args: &[String]) -> i32 {
     let replay = doc.get("replay").cloned().unwrap_or(serde_json::Value::Null);
     let engine = replay.get("engine").and_then(|e| e.as_str()).unwrap_or("");
     let result = match engine {
+        "in-process-abort" => replay_unit(&replay),
         c08::ENGINE_A => c08::replay(&replay),
         cycle::ENGINE => cycle::replay(&replay),
         cycleb::ENGINE => { need_shim(); cycleb::replay(&replay) }
@@ -273,6 +274,31 @@ fn cmd_replay(args: &[String]) -> i32 {
             2
         }
     }
+}
+
+/// Re-runs one in-flight unit of a dead orchestrator. If the FML code aborts again, this process dies by the
+/// same signal and the check script reports it; if it survives, the unit was not the culprit.
+fn replay_unit(replay: &serde_json::Value) -> Result<Option<(String, String)>, String> {
+    std::env::set_var("VERIF_NO_BREADCRUMBS", "1");
+    let u = replay.get("unit").ok_or("no unit")?;
+    match u.get("kind").and_then(|k| k.as_str()) {
+        Some("c08") => c08::replay_unit(u)?,
+        Some("cycle") => cycle::replay_unit(u)?,
+        Some("c16a") => c16::replay_unit(u)?,
+        Some("program") => {
+            // compile, serialize, load, execute and round-trip through the AST formats: everything the process-level checks do in-process
+            let spec = work::ProgSpec::from_json(u.get("program").ok_or("no program")?).ok_or("bad program")?;
+            if let Ok(p) = spec.build() {
+                if let Ok(bytes) = vm::serialize_to_vec(&p) { let _ = vm::load_from_slice(&bytes); }
+                let _ = vm::run(&p, &vm::RunCfg { step_budget: 400_000, ..Default::default() });
+            }
+            if let Some(src) = spec.source() {
+                if let Some(prep) = c06::prepare(&src) { for f in c06::Fmt::ALL { let _ = c06::roundtrip_in_process(&prep, f); } }
+            }
+        }
+        _ => return Err("unknown unit kind".into()),
+    }
+    Ok(None)
 }
 
 fn cmd_gen(args: &[String]) -> i32 {
